@@ -18,6 +18,8 @@ def run(rep, tier, seed):
     rep.add_bounded('operator matrix', n, len(keys),
                     'operators +,-,*,/ with constants of every kind (python int/float/complex, numpy scalars, ndarray: same shape, int, complex, one more leading dimension (3 and P), last-dim, length-1) on either side; in-place forms; ** with int/float/complex exponents, scalar bases, polynomial exponents; UTPM op UTPM over all broadcastable shape pairs and real/complex mixes; x op x, x op= x, x op= view(x). Oracle: independent truncated arithmetic (bounded/polyarith.py) per broadcast element; complex results must stay complex. distinct = distinct (op, kinds, shapes, D, P, dtype mix)',
                     samples, 'D<=%d, P<=%d, rank<=3, dims<=3' % ((3, 2) if tier == 'quick' else (4, 3)))
+    from .opbased import integer_part
+    integer_part(rep, 'C02', tier, seed, ('arith',))
     rep.assume(*[ASSUME[k] for k in ('A1', 'A3', 'A4', 'A6', 'A8', 'A9', 'A10', 'A11', 'CPLX')])
     rep.extra['explanation'] = 'proved: the ring kernels (_mul,_amul,_truediv,_itruediv,_square,_reciprocal) for all D and every aliasing configuration used by a call site; bounded: the operator methods (operand-kind dispatch, broadcasting, dtype promotion)'
     return rc
